@@ -165,7 +165,25 @@ def check(run, prog, tier):
     run.floor("F2-paths", checked, 2)
     # the instances asked are the announced ones
     it_ok = any(c.recv is not None and c.recv[0] == "elem" and c.recv[1] == ("attr", annme, "announcing_services") for p in hpaths for c in calls_to(p, mf.qual))
-    run.ob("F2", f"{hf.qual}:asks-every-announced-instance", it_ok, loc(hf), "every announced instance is asked")
+    # ... every one of them: the loop that asks the instances has no early exit (a `break` / `return` after the first match
+    # silences every later instance that matches too - e.g. two instances that differ only in their version)
+    import ast as _ast
+    early = None
+    for node in _ast.walk(hf.node):
+        if isinstance(node, (_ast.For, _ast.While)) and any(isinstance(x, _ast.Attribute) and x.attr == mf.name for x in _ast.walk(node)):
+            stack = list(node.body)
+            while stack:
+                x = stack.pop()
+                if isinstance(x, (_ast.Break, _ast.Return)):
+                    early = x
+                    break
+                if isinstance(x, (_ast.FunctionDef, _ast.AsyncFunctionDef, _ast.Lambda, _ast.For, _ast.While)):
+                    continue
+                stack.extend(_ast.iter_child_nodes(x))
+    run.ob("F2", f"{hf.qual}:asks-every-announced-instance", it_ok and early is None, loc(hf, early),
+           "every announced instance is asked" if it_ok and early is None else
+           ("the loop over the announced instances is left early: instances after the first match are never asked although they may match as well"
+            if early is not None else "the instances asked are not the announced ones"))
     # sd_message_received passes the channel
     smr = prog.lookup_method(PROTO, "sd_message_received")
     run.analysed(smr)
